@@ -117,7 +117,12 @@ impl EntryIoStream for ScriptStream {
             c.log.borrow_mut().push(Log::Report);
             return Ok(());
         };
+        // a scripted failure is transient: should the same entry ever be handed over again it is
+        // accepted (on the unchanged tree no entry is handed over twice; a writer that re-queues
+        // a failed entry then shows up as a duplicate out of order, not as an endless loop)
+        let handed_before = c.log.borrow().iter().any(|l| matches!(l, Log::Next(i, _) if *i == id));
         let res = match c.mode {
+            _ if handed_before => Res::Ok,
             Mode::AllOk | Mode::AllOkFlushFails => Res::Ok,
             Mode::AllIo => Res::Io,
             Mode::AllValidation | Mode::AllValidationFlushFails => Res::Val,
